@@ -166,7 +166,7 @@ def filter_uses_doc(flt):
 # generators
 
 BIG = 2 ** 63 - 1  # an integer no double represents (seeds, nanosecond timestamps)
-SCALARS = [0, 1, 2, -1, -2, 1.0, 2.0, -1.0, -2.0, 0.5, 1.5, True, False, None, "x", "1", "abc", "", "x y", BIG, BIG - 2,
+SCALARS = [0, 1, 2, -1, -2, 1.0, 2.0, -1.0, -2.0, 0.5, 1.5, True, False, None, "x", "1", "abc", "", "x y", "a/b", "x/", BIG, BIG - 2,
            float(2 ** 63)]
 LISTS = [[1], [1, 2], [1.0], ["x"], [], [True], [[1], 2]]
 SP_KEYS = ["a", "b"]
@@ -279,7 +279,7 @@ def rand_atom(rng, corpus, key=None):
     if op == "$exists":
         return {key: {op: rng.random() < 0.6}}
     if op == "$regex":
-        return {key: {op: rng.choice(["^x", "b", "^$", "1", ".", "x y", "^[a-z]+$"])}}
+        return {key: {op: rng.choice(["^x", "b", "^$", "1", ".", "x y", "^[a-z]+$", "/$", "^a/", "/", "a/b"])}}
     if op == "$type":
         return {key: {op: rng.choice(list(TYPES))}}
     if op == "$near":
@@ -350,7 +350,7 @@ def all_atoms(corpus):
         yield {key: {"$nin": []}}
         for t in TYPES:
             yield {key: {"$type": t}}
-        for rx in ("^x", "1", "^$"):
+        for rx in ("^x", "1", "^$", "/$"):
             yield {key: {"$regex": rx}}
 
 
